@@ -313,6 +313,12 @@ func c02Push(w *W) {
 	}
 	var recvs []*c2Recv
 	var pulls []mangos.Socket
+	victim := 0
+	stalledVictim := false
+	if faulty {
+		victim = w.Choose(simrt.SProg, npull)
+		stalledVictim = w.Choose(simrt.SProg, 2) == 0
+	}
 	for i := 0; i < npull; i++ {
 		p := w.Sock(pkind)
 		defer p.Close()
@@ -322,14 +328,18 @@ func c02Push(w *W) {
 			return
 		}
 		pulls = append(pulls, p)
+		if stalledVictim && i == victim {
+			// this one never reads: what is sent to it stays in flight until it goes
+			recvs = append(recvs, &c2Recv{name: fmt.Sprintf("pull%d", i), s: p})
+			w.Probe("stalled-pull-peer-lost")
+			continue
+		}
 		recvs = append(recvs, c2StartReceiver(w, fmt.Sprintf("pull%d", i), p, 300*time.Millisecond))
 	}
 	w.Settle()
 	accepted := map[string]bool{}
 	calls := c2Senders(w, s, kind, "P", nsend, nmsg, accepted)
-	victim := 0
 	if faulty {
-		victim = w.Choose(simrt.SProg, npull)
 		w.Sleep(time.Duration(w.Choose(simrt.SProg, 300)) * time.Microsecond)
 		w.Fault("close")
 		w.Op("pull%d closes mid-way", victim)
